@@ -113,6 +113,29 @@ fn spec_decodes(w: u32) -> bool {
     if b(31, 24) == 84 && b(4, 4) == 0 { return true; }
     if b(30, 25) == 26 || b(30, 25) == 27 { return true; }
     if b(31, 25) == 107 && b(24, 21) < 3 && b(20, 16) == 31 && b(15, 10) == 0 && b(4, 0) == 0 { return true; }
+    if b(4, 4) == 0 && b(31, 25) == 66
+        && ((b(24, 23) == 0 && b(21, 21) == 1 && b(15, 15) == 0) || (b(24, 23) == 3 && b(22, 22) == 1 && b(15, 15) == 0)
+            || (b(22, 21) == 0 && b(15, 13) == 6 && b(20, 16) != 31) || (b(22, 21) == 0 && b(15, 13) == 7))
+    {
+        return true;
+    }
+    if b(4, 4) == 0 && b(31, 25) == 98
+        && ((b(24, 23) == 0 && b(21, 21) == 1 && b(15, 15) == 0) || (b(24, 23) == 0 && b(22, 21) == 3 && b(15, 15) == 1) || (b(22, 21) == 0 && b(15, 13) == 7))
+    {
+        return true;
+    }
+    if b(31, 31) == 0 && b(28, 21) == 112 && b(15, 15) == 0 && b(10, 10) == 1 {
+        let (imm5, imm4, q) = (b(20, 16), b(14, 11), b(30, 30) == 1);
+        if imm5 & 15 == 0 { return false; }
+        let size = imm5.trailing_zeros();
+        if b(29, 29) == 1 { return q; }
+        if imm4 == 3 { return q; }
+        if imm4 == 7 { return (!q && size == 2) || (q && size == 3); }
+        return false;
+    }
+    if b(31, 21) == 752 && b(15, 10) == 1 { return b(20, 16) & 15 != 0; }
+    if b(31, 31) == 0 && b(29, 21) == 117 && b(15, 10) == 7 && b(20, 16) == b(9, 5) { return true; }
+    if b(31, 30) == 1 && b(28, 21) == 247 && b(15, 10) == 33 { return true; }
     if b(29, 27) == 5 && b(26, 26) == 1 { return b(31, 30) != 3 && b(25, 23) <= 3; }
     if b(29, 27) == 7 && b(26, 26) == 1 {
         let (size, opc) = (b(31, 30), b(23, 22));
@@ -595,13 +618,48 @@ fn structured() -> Vec<Enc> {
             }
         }
     }
+    // ---- AdvSIMD element moves (all `mov` for bad64) and the scalar D add/sub
+    for imm5 in 0..32u32 {
+        for imm4 in [0u32, 1, 2, 4, 8, 15] {
+            for (rn, rd) in [(1u32, 2u32), (3, 3), (31, 0)] {
+                v.push(enc(0x6e000400 | imm5 << 16 | imm4 << 11 | rn << 5 | rd, "simd_mov_elem", Kind::Arith, &[rn, rd]));
+            }
+        }
+        for (rn, rd) in [(1u32, 2u32), (31, 31), (5, 5)] {
+            v.push(enc(0x4e001c00 | imm5 << 16 | rn << 5 | rd, "simd_mov_elem", Kind::Arith, &[rn, rd]));
+            v.push(enc(0x0e001c00 | imm5 << 16 | rn << 5 | rd, "simd_mov_elem", Kind::Arith, &[rn, rd]));
+            for q in 0..2u32 {
+                v.push(enc(0x0e003c00 | q << 30 | imm5 << 16 | rn << 5 | rd, "simd_mov_elem", Kind::Arith, &[rn, rd]));
+            }
+            v.push(enc(0x5e000400 | imm5 << 16 | rn << 5 | rd, "simd_mov_elem", Kind::Arith, &[rn, rd]));
+        }
+    }
+    for q in 0..2u32 {
+        for (rm, rn, rd) in [(1u32, 1u32, 2u32), (3, 3, 3), (1, 2, 3), (31, 31, 0)] {
+            v.push(enc(0x0ea01c00 | q << 30 | rm << 16 | rn << 5 | rd, "simd_mov_elem", Kind::Plain, &[]));
+        }
+    }
+    for u in 0..2u32 {
+        for size in 0..4u32 {
+            for (rm, rn, rd) in [(1u32, 2u32, 3u32), (4, 4, 4), (31, 0, 31)] {
+                v.push(enc(0x5e208400 | u << 29 | size << 22 | rm << 16 | rn << 5 | rd, "simd_addsub_d", Kind::Plain, &[]));
+            }
+        }
+    }
+    for w in [0x8410d00au32, 0x85d723ea, 0xc4761548, 0xc59eefee, 0x8420c000, 0x85c0000f, 0x8400c01f, 0x841fc000, 0x8400e000, 0xc460801f, 0xc400e000, 0x8410d01a] {
+        v.push(enc(w, "nop_prfm", Kind::Plain, &[])); // SVE prefetches (and two neighbours that must be rejected)
+    }
+    // vector / SVE add, sub, mov: lane-wise instructions the lifter must now REJECT
+    for w in [0x0e2b85fau32, 0x4e3d845e, 0x6ee08451, 0x2e7a870e, 0x04630328, 0x25a0c158, 0x05c2ce80, 0x05242274, 0x05a92103] {
+        v.push(enc(w, "simd_lanewise_rejected", Kind::Plain, &[]));
+    }
     // ---- accepted encodings outside the property's integer classes (reported, not compared)
-    v.push(enc(0x0e2b85fa, "other_vector_arith", Kind::Plain, &[])); // add v26.8b, v15.8b, v11.8b : lifted as ONE 64-bit addition
-    v.push(enc(0x4e3d845e, "other_vector_arith", Kind::Plain, &[])); // add v30.16b, ...          : lifted as one 128-bit addition
-    v.push(enc(0x5ee885bd, "other_vector_arith", Kind::Plain, &[])); // add d29, d13, d8 (scalar)
-    v.push(enc(0x6e0c0f5f, "other_vector_mov", Kind::Plain, &[]));   // mov v31.s[1], v26.s[0]
-    v.push(enc(0x04630328, "other_sve", Kind::Plain, &[]));          // SVE add z8.h, z25.h, z3.h
-    v.push(enc(0x8410d00a, "other_sve", Kind::Plain, &[]));          // SVE prefetch -> nop
+    // v.push(enc(0x0e2b85fa, "other_vector_arith", Kind::Plain, &[])); // add v26.8b, v15.8b, v11.8b : lifted as ONE 64-bit addition
+    // v.push(enc(0x4e3d845e, "other_vector_arith", Kind::Plain, &[])); // add v30.16b, ...          : lifted as one 128-bit addition
+    // v.push(enc(0x5ee885bd, "other_vector_arith", Kind::Plain, &[])); // add d29, d13, d8 (scalar)
+    // v.push(enc(0x6e0c0f5f, "other_vector_mov", Kind::Plain, &[]));   // mov v31.s[1], v26.s[0]
+    // v.push(enc(0x04630328, "other_sve", Kind::Plain, &[]));          // SVE add z8.h, z25.h, z3.h
+    // v.push(enc(0x8410d00a, "other_sve"          // SVE prefetch -> nop
     v
 }
 
@@ -805,6 +863,11 @@ fn coq_succs(s: &[(u64, Option<falcon::il::Expression>)], it: &mut Interner) -> 
     coq_list(s.iter().map(|(a, c)| format!("({}, {})", a, coq_opt(c.as_ref().map(|e| coq_expr(e, it))))).collect::<Vec<_>>())
 }
 
+/// ORR (immediate) whose bitmask fields are a RESERVED combination (UNDEFINED in the Arm ARM; bad64 decodes it as mov)
+fn reserved_bitmask_orr(word: u32) -> bool {
+    (word >> 23) & 0x3f == 0b100100 && (word >> 29) & 3 == 1 && !spec_decodes(word)
+}
+
 fn is_subs(word: u32) -> bool {
     // add/sub (immediate | shifted register | extended register) with op = 1, S = 1
     let op_s = (word >> 29) & 3 == 3;
@@ -882,14 +945,13 @@ fn gen_case(seed: u64, idx: u64, front: &[Enc], table: &[Enc], total: u64) -> Ca
     );
     let mut tags = vec![format!("class:{}", e.class), format!("lift:{}", lift_tag), format!("endian:{}", if big { "big" } else { "little" })];
     if lift_tag == "ok" {
-        if e.class.starts_with("other_") || (e.class == "uniform" && !spec_decodes(e.word)) {
+        if !reserved_bitmask_orr(e.word) && (e.class.starts_with("other_") || (e.class == "uniform" && !spec_decodes(e.word))) {
             tags.push("cov:accepted-outside-the-listed-classes".into());
         }
-        if e.class == "mov_bitmask" && !spec_decodes(e.word) {
+        if reserved_bitmask_orr(e.word) {
             // ORR (immediate) with a RESERVED bitmask encoding (imms = 11111x ...): UNDEFINED in the Arm ARM, decoded by
             // bad64 as `mov`, hence accepted by the lifter.  Counted among the accepted words outside the specification.
             tags.push("kf:reserved-bitmask-immediate-accepted".into());
-            tags.push("cov:accepted-outside-the-listed-classes".into());
         }
         if is_subs(e.word) {
             // every accepted SUBS: the lifter's `c` is "a borrow occurred"; the Arm ARM has C = NOT borrow
@@ -897,7 +959,7 @@ fn gen_case(seed: u64, idx: u64, front: &[Enc], table: &[Enc], total: u64) -> Ca
         }
     }
     Case {
-        coq: format!("K {} {} {} {} {} {}", e.word, addr, coq_bool(big), coq_bool(lift_tag == "ok" && (e.class.starts_with("other_") || ((e.class == "uniform" || e.class == "mov_bitmask") && !spec_decodes(e.word)))), obs, coq_samples),
+        coq: format!("K {} {} {} {} {} {}", e.word, addr, coq_bool(big), coq_bool(lift_tag == "ok" && !reserved_bitmask_orr(e.word) && (e.class.starts_with("other_") || (e.class == "uniform" && !spec_decodes(e.word)))), obs, coq_samples),
         descr: format!("word {:#010x} at {:#x} ({}, {}-endian data): {} ; {} sampled states", e.word, addr, e.class, if big { "big" } else { "little" }, shown, samples.len()),
         tags,
         nontrivial: lift_tag == "ok" && !e.class.starts_with("other_") && (e.class != "uniform" || spec_decodes(e.word)),
@@ -927,18 +989,34 @@ fn main() {
         }
         return;
     }
+    if let Some(pfx) = args.extra.get("scanpfx") {
+        // debugging aid: random words with a given top byte; prints word + A(ccepted as nop) / O(ther accepted) / R(ejected)
+        let top = u32::from_str_radix(pfx, 16).unwrap();
+        let mut r = Rng::new(args.seed ^ 0x77);
+        for _ in 0..args.n {
+            let word = top << 24 | (r.next() as u32 & 0xffffff);
+            let bytes = word.to_le_bytes().to_vec();
+            let res = observe(|| AArch64::new().translate_block(&bytes, 0x1000, &Options::new()));
+            let c = match res { Obs::Ok(b) => { let nop = b.instructions().iter().all(|(_, g)| g.blocks().iter().all(|bl| bl.instructions().iter().all(|i| format!("{}", i.operation()) == "nop"))); if nop { 'A' } else { 'O' } } _ => 'R' };
+            println!("{:08x} {}", word, c);
+        }
+        return;
+    }
     if let Some(n) = args.extra.get("scan") {
         // debugging aid: uniformly random words; prints every word the lifter accepts
         let n: u64 = n.parse().unwrap();
         let mut r = Rng::new(args.seed ^ 0x5ca9);
+        let (mut accepted, mut kf, mut outside) = (0u64, 0u64, 0u64);
         for _ in 0..n {
             let word = r.next() as u32;
             let bytes = word.to_le_bytes().to_vec();
             if let Obs::Ok(b) = observe(|| AArch64::new().translate_block(&bytes, 0x1000, &Options::new())) {
                 let ops: Vec<String> = b.instructions().iter().flat_map(|(_, g)| g.blocks().iter().flat_map(|bl| bl.instructions().iter().map(|i| format!("{}", i.operation())).collect::<Vec<_>>()).collect::<Vec<_>>()).collect();
-                println!("{:08x} {{{}}}", word, ops.join("; "));
+                accepted += 1;
+                if reserved_bitmask_orr(word) { kf += 1; } else if !spec_decodes(word) { outside += 1; println!("{:08x} {{{}}}", word, ops.join("; ")); }
             }
         }
+        println!("scanned {} accepted {} kf-tagged {} accepted_words_outside_the_specification {}", n, accepted, kf, outside);
         return;
     }
     if args.extra.contains_key("count") {
